@@ -46,6 +46,11 @@ def import_library():
     want = os.path.realpath(os.path.join(SRC, "basictdf"))
     if got != want:
         raise HarnessError(f"basictdf imported from {got}, expected {want}")
+    import basictdf.basictdf  # noqa  (all sub-modules are loaded through it)
+
+    global _pristine
+    _pristine = None
+    reset_library_state()  # takes the import-time snapshot
     return basictdf
 
 
@@ -79,3 +84,63 @@ def fresh_dir():
 
 def rmdir(path):
     shutil.rmtree(path, ignore_errors=True)
+
+
+# ---------------------------------------------------------------------------------------
+# isolation between cases: module-level mutable state of the library (mutable default
+# arguments, class-level containers) is restored to its import-time content before every
+# case, so that a failing case is self-contained and its replay file reproduces it.
+_pristine = None
+
+
+def _mutable(x):
+    return isinstance(x, (list, dict, set, bytearray))
+
+
+def _scan():
+    import copy
+    import inspect
+
+    found = []  # (container object, pristine deep copy)
+    seen = set()
+    for name, mod in list(sys.modules.items()):
+        if not (name == "basictdf" or name.startswith("basictdf.")) or mod is None:
+            continue
+        for _, obj in list(vars(mod).items()):
+            objs = [obj]
+            if inspect.isclass(obj) and getattr(obj, "__module__", "").startswith("basictdf"):
+                for _, attr in list(vars(obj).items()):
+                    if _mutable(attr) and id(attr) not in seen:
+                        seen.add(id(attr))
+                        found.append((attr, copy.deepcopy(attr)))
+                    objs.append(attr)
+            for o in objs:
+                fn = getattr(o, "__func__", o)
+                fn = getattr(fn, "fget", fn) if isinstance(fn, property) else fn
+                fn = getattr(fn, "__wrapped__", fn)
+                if not inspect.isfunction(fn) or not getattr(fn, "__module__", "").startswith("basictdf"):
+                    continue
+                for d in list(fn.__defaults__ or ()) + list((fn.__kwdefaults__ or {}).values()):
+                    if _mutable(d) and id(d) not in seen:
+                        seen.add(id(d))
+                        found.append((d, copy.deepcopy(d)))
+    return found
+
+
+def reset_library_state():
+    global _pristine
+    if _pristine is None:
+        _pristine = _scan()
+        return
+    for cont, orig in _pristine:
+        if cont == orig:
+            continue
+        import copy
+
+        if isinstance(cont, list):
+            cont[:] = copy.deepcopy(orig)
+        elif isinstance(cont, (dict, set)):
+            cont.clear()
+            cont.update(copy.deepcopy(orig))
+        elif isinstance(cont, bytearray):
+            cont[:] = orig
